@@ -18,7 +18,7 @@ RULE = (
     'different tokens). Monitors: status of every task sampled at every boundary (forward-only '
     'automaton); every awaiter outcome recorded (identity); cancel before first activation => '
     'payload never logs; cancel while suspended => by the end of that time step the task is done '
-    'or (asynchronous clean-up) the cancellation has been raised in it in that step; TaskCancelled.subject/token; a plain Scope is never '
+    'or (asynchronous clean-up) the cancellation has been raised in it in that step; TaskCancelled.subject/token; no activity is still suspended in `await task` at the end of a time step in which the task is done; a plain Scope is never '
     'aborted without a failing child. non-trivial = >= 1 cancel judged; distinct = trace'
 )
 LEVEL_TEXT = (
@@ -34,7 +34,7 @@ ASSUMPTIONS = [
 ]
 REQUIRED_STATS = ['c06_samples', 'c06_cancels_judged', 'c06_cancel_before_start',
                   'graceful_cleanups', 'c06_cancel_seen_cleanup_pending',
-                  'c06_cancel_running', 'c06_awaits', 'injected']
+                  'c06_cancel_running', 'c06_awaits', 'c06_pending_awaits_checked', 'injected']
 
 WEIGHTS = {
     'scope': 14, 'until': 5, 'spawn': 4, 'raise': 1.2, 'cancel': 8, 'await_task': 12,
